@@ -127,9 +127,21 @@ def stmts_of(block):
 
 
 def walk(n):
+    """Pre-order over all nodes. Struct literal / struct pattern field lists are [name, node] pairs, not nodes."""
     if isinstance(n, list):
-        if n and isinstance(n[0], str):
+        t = n[0] if n and isinstance(n[0], str) else None
+        if t is not None:
             yield n
+        if t == "struct":
+            for f in n[2]:
+                yield from walk(f[1])
+            if n[3] is not None:
+                yield from walk(n[3])
+            return
+        if t == "ps":
+            for f in n[2]:
+                yield from walk(f[1])
+            return
         for c in n:
             if isinstance(c, list):
                 yield from walk(c)
